@@ -17,6 +17,49 @@ import (
 
 func init() { scenarios["C10"] = runC10 }
 
+// runC10HandlerClose: the application gives up at the first disconnect and calls Conn.Close from its
+// disconnected handler, i.e. between the detection of the failure and the redial. Once that Close has
+// returned the client dials no more.
+func runC10HandlerClose(s *Sim, y *Sys) {
+	s.Family = "close-final/close-from-disconnected-handler"
+	s.mu.Lock()
+	y.CloseOnDisconnected = true
+	s.mu.Unlock()
+	for _, l := range y.aliveLinks() {
+		l.Kill(errClosed, errClosed)
+	}
+	s.Stat("fault.cut")
+	for i := 0; i < 40; i++ {
+		y.Pump()
+		y.Advance(2 * time.Second)
+	}
+	s.Nontrivial()
+	s.mu.Lock()
+	var hc *handlerCall
+	if len(y.HandlerCalls) > 0 {
+		hc = y.HandlerCalls[0]
+	}
+	dials := s.Net.Dials
+	s.mu.Unlock()
+	switch {
+	case hc == nil:
+		s.Stat("c10.no-disconnected-notification")
+	case !hc.Returned:
+		s.Violate("C10.close-blocks", "conn:from-disconnected-handler", "Conn.Close (5 s deadline) called from the disconnected handler at %v has not returned at %v", hc.Start, s.Now())
+	case dials > hc.DialsAtEnd:
+		s.Violate("C10.reconnect-after-close", "close-from-disconnected-handler", "%d dial(s) after the Conn.Close that the application called from its disconnected handler had returned (err=%s)", dials-hc.DialsAtEnd, errString(hc.Err))
+	}
+	s.sample = map[string]any{"mode": "close-from-disconnected-handler", "dials": dials}
+	for _, tk := range s.tasks {
+		if tk.busy != nil {
+			s.CancelOp(tk.busy)
+		}
+	}
+	s.Wait()
+	s.Harvest()
+	y.teardown()
+}
+
 func runC10(s *Sim) {
 	t := s.T
 	s.Family = "close-final"
@@ -76,6 +119,10 @@ func runC10(s *Sim) {
 		s.Stat("env.slow-application-hooks")
 	}
 
+	if t.Bool("close-from-disconnected-handler", 1, 10) {
+		runC10HandlerClose(s, y)
+		return
+	}
 	// ---- history before the close: traffic, pending operations, possibly an outage ----
 	nHist := Pick(t, "hist", 6, 0, 3, 15)
 	n := 0
